@@ -3,15 +3,17 @@ import gzip
 import os
 import lzma
 
-from vlib import core, e2e, coord_common
+from vlib import core, e2e, coord_common, worker_traces
 from vlib.props.C08 import rec as utmp_rec
 
-MODS = ['S4V.Props.C06', 'S4V.Props.CoordSpec', 'S4V.Props.LinesSpec']
+MODS = ['S4V.Props.C06', 'S4V.Props.CoordSpec', 'S4V.Props.LinesSpec', 'S4V.Props.WorkerProtoSpec']
 LEVEL_NOTE = ("Proved (the part that is logic): in the coordinator model, for every schedule and arbitrary scripts of the other sources — "
               "messages then stop with or without a summary, error FileInfo + summary, data after a summary — the output restricted to the healthy sources is the merge "
               "of the healthy sources (C07_isolation), the run ends (terminates), errs = 0 iff every source delivered only ok data and a summary (errs_zero_iff); the "
               "modelled cores are total and in bounds (findLine parts lie inside their blocks for every input; classification terminates for every name; searches never "
-              "err or run out of fuel). NOT provable here and covered by the malformed stream below (testing): absence of panics/aborts inside flate2, tar, evtx, lzma-rs, "
+              "err or run out of fuel). What a faulty source can put on its channel is proved over the worker skeletons regenerated from s4.rs (WorkerProtoSpec: every producible "
+              "send-trace of every exec_*processor, error paths included, is FileInfo first, then messages, then at most one FileSummary - W_thread_tidy; a panicking worker has sent nothing or a "
+              "FileInfo-headed prefix - W_thread_cut), so the faulty scripts the isolation theorem quantifies over cover the real workers. NOT provable here and covered by the malformed stream below (testing): absence of panics/aborts inside flate2, tar, evtx, lzma-rs, "
               "lz4_flex, bzip2-rs, libsystemd, the unsafe casts of fixedstruct.rs, and wall-clock promptness.")
 ASSUME = ["third-party decoders and libsystemd do not panic/abort on malformed input (exercised by truncation/bit-flip/random/mismatched-name inputs, never proved)",
           "OS scheduling; wall-clock bound is a test, not a theorem"]
@@ -172,13 +174,15 @@ def oracle_and_corr(ctx):
 
 
 def check(ctx):
-    ok_gen = core.step_gen(ctx, ['Consts', 'Blocks', 'Coord'])
+    ok_gen = core.step_gen(ctx, ['Consts', 'Blocks', 'Coord', 'Worker'])
     prove = core.step_prove(ctx, MODS) if ok_gen else {'module': ' '.join(MODS), 'obligations': 0, 'discharged': 0}
     core.step_drv(ctx) if (ok_gen or ctx.search_mode) else False
     ok_impl = core.step_build_impl(ctx)
     orc, corr = (None, [])
     if ok_impl:
         orc, corr = oracle_and_corr(ctx)
+        # every worker's observed receive sequence (all source kinds, damaged inputs, error paths) must be a trace of the regenerated worker skeleton
+        corr = list(corr) + [worker_traces.correspondence(ctx, ctx.q(60, 500))]
     return core.decide(ctx, prove, corr, orc, LEVEL_NOTE, ASSUME)
 
 
